@@ -16,6 +16,7 @@ def apply_step(w, program, st, **kw):
         if opts:
             kw = dict(kw)
             kw.update(build_kwargs(opts, w))
+            kw.pop('_scheduler', None)
             kw['step_opts'] = opts
         return w.build(program, body, st[2] or {}, label=label, **kw)
     if op == 'clean':
@@ -58,6 +59,16 @@ def build_kwargs(opts, w=None):
                             lambda path, cls=cls, code=code: cls(code, 'injected fault', path))
         if f.get('expect_fail', True):
             kw['run_model'] = False
+    if 'schedule' in opts:
+        from . import sched
+        sched.install()
+        st = dict(opts['schedule'])
+        if 'at' in st:
+            st['at'] = {int(k): v for k, v in st['at'].items()}
+        sc = sched.Scheduler(st)
+        kw.setdefault('hooks', {})['spawn'] = sc.spawn
+        kw['hooks']['fs_yield'] = sc.fs_yield
+        kw['_scheduler'] = sc
     if 'model_setup_fail' in opts and w is not None:
         kw['model_setup_fail'] = {w.ap(r): OSError(errno.EIO, 'injected fault (model)')
                                   for r in opts['model_setup_fail']}
